@@ -156,6 +156,12 @@ func c06Configs(c *c06Case) (cc, sc *gmtls.Config, err error) {
 	case "gm":
 		sc = &gmtls.Config{GMSupport: &gmtls.GMSupport{}, Certificates: []gmtls.Certificate{f.sig, f.enc}}
 	case "auto":
+		if c.Source == "static" {
+			gs := gmtls.NewGMSupport()
+			gs.EnableMixMode()
+			sc = &gmtls.Config{GMSupport: gs, Certificates: []gmtls.Certificate{f.sig, f.enc}}
+			break
+		}
 		sig, enc, rsaC := f.sig, f.enc, f.rsa
 		sc, err = gmtls.NewBasicAutoSwitchConfig(&sig, &enc, &rsaC)
 		if err != nil {
